@@ -59,11 +59,11 @@ Proof.
   rewrite <- (app_nil_r (spaces k)). rewrite trim_left_spaces. reflexivity.
 Qed.
 
-Definition lead_spaces := (fix tl (r : str) : nat :=
-                match r with
-                | c :: r' => if N.eqb c ch_space then S (tl r') else 0
-                | [] => 0
-                end).
+Fixpoint lead_spaces (r : str) : nat :=
+  match r with
+  | c :: r' => if N.eqb c ch_space then S (lead_spaces r') else 0
+  | [] => 0
+  end.
 
 Lemma trim_right_len_eq s : trim_right_len s = length s - lead_spaces (rev s).
 Proof. reflexivity. Qed.
@@ -72,7 +72,7 @@ Lemma lead_spaces_app m l : lead_spaces (spaces m ++ l) = m + lead_spaces l.
 Proof.
   induction m as [|m IH]; [reflexivity|].
   rewrite spaces_S. cbn [app lead_spaces]. change (N.eqb ch_space ch_space) with true. cbv iota.
-  fold lead_spaces. rewrite IH. reflexivity.
+  rewrite IH. reflexivity.
 Qed.
 
 Lemma trim_right_len_body r c m :
